@@ -370,9 +370,25 @@ def request(idnt, req, ctx, desc):
     return full
 
 
-def value_oracle(full, ymax, ctx, desc):
+def idt_gradient_class(idnt):
+    """independent look at the input of feat_con_idt_monotony: does the (blurred, sigma 2) approach force beyond
+    the fitted contact point rise anywhere?  (the feature divides by the summed positive gradient)"""
+    from scipy import ndimage
+    fp = idnt.fit_properties
+    seg0 = idnt["segment"] == 0
+    x, y = idnt[fp["x_axis"]][seg0], idnt["force"][seg0]
+    part = np.asarray(y[x < fp["params_fitted"]["contact_point"].value], dtype=float)
+    if part.size <= 2:
+        return "too_short"
+    grad = np.gradient(ndimage.gaussian_filter1d(part, sigma=2))
+    return "some_positive" if np.any(grad > 0) else "none_positive"
+
+
+def value_oracle(full, ymax, ctx, desc, idnt=None):
     for name, v in zip(ALL, full):
         d = dict(desc, feature=name)
+        if name == "feat_con_idt_monotony" and idnt is not None and not np.isnan(v) and not np.isfinite(v):
+            d["idt_gradient"] = idt_gradient_class(idnt)
         ctx.check(np.isnan(v) or np.isfinite(v), "non-finite", d, f"{name} = {v!r}")
         if np.isnan(v) or not np.isfinite(v):
             continue
@@ -438,7 +454,7 @@ def check_fitted(case, ctx):
             ctx.event("nan_" + name)
     ctx.check(fitgen.snapshot(idnt) == before, "curve-modified", desc,
               "settings, results, columns or rating of the curve changed while computing features")
-    value_oracle(full, ymax, ctx, desc)
+    value_oracle(full, ymax, ctx, desc, idnt)
     # the three counting features against their one-line definitions
     cp = idnt.fit_properties["params_fitted"]["contact_point"].value
     want = {"feat_bin_size": float(napp >= 600),
